@@ -110,7 +110,8 @@ fn shape(t: &Ty) -> Ty {
 /// Is one answer `Unique` with the identity substitution and the other `Ambig(Unknown)` (the D22 signature)?
 pub fn trivial_unique_vs_unknown(a: &DSol, b: &DSol) -> bool {
     let trivial_unique = |s: &DSol| match s {
-        DSol::Unique(x) => x.constraints.is_empty() && x.args.iter().enumerate().all(|(i, a)| matches!(a, DArg::Ty(Ty::Var(v)) if *v as usize == i)),
+        // (goals without unknowns are not D22's: there is no identity answer to arrive first or last)
+        DSol::Unique(x) => !x.args.is_empty() && x.constraints.is_empty() && x.args.iter().enumerate().all(|(i, a)| matches!(a, DArg::Ty(Ty::Var(v)) if *v as usize == i)),
         _ => false,
     };
     (trivial_unique(a) && matches!(b, DSol::Unknown)) || (trivial_unique(b) && matches!(a, DSol::Unknown))
